@@ -46,6 +46,12 @@ func genAdd(r *core.Rand, c *stCase) stCmd {
 	if !cmd.V && !cmd.T && !cmd.M {
 		cmd.T = true
 	}
+	if cmd.V && c.Vec != "hnsw" {
+		// distances in up to three well separated groups (what autocut reacts to). Not for HNSW
+		// templates: clustered data is where its nearest-M pruning disconnects the graph (C12, D3);
+		// the store streams keep HNSW in the small unclustered regime where it is exact
+		cmd.Far = r.Pick(6, 2, 1)
+	}
 	return cmd
 }
 
@@ -87,11 +93,16 @@ func genRestart(r *core.Rand, tier string) *stCase {
 	if compacting {
 		c.CompThr = r.Range(2, 3)
 	}
+	c.Dir = r.Intn(len(storeDirNames))
+	if r.Chance(0.4) {
+		c.Dir = 0
+	}
 	sessions := r.Range(1, 4)
 	maxAdds := 5
 	if tier == "thorough" {
 		maxAdds = 9
 	}
+	nAdds := 0
 	for s := 0; s < sessions; s++ {
 		c.Cmds = append(c.Cmds, stCmd{Op: "open"})
 		if s > 0 && r.Chance(0.7) {
@@ -101,6 +112,16 @@ func genRestart(r *core.Rand, tier string) *stCase {
 		for k := 0; k < rounds; k++ {
 			for n := r.Range(0, maxAdds); n > 0; n-- {
 				c.Cmds = append(c.Cmds, genAdd(r, c))
+				nAdds++
+				if c.Vec != "hnsw" && r.Chance(0.06) {
+					// the same id again, possibly acknowledged in an earlier session
+					ref := r.Intn(nAdds)
+					if r.Bool() {
+						c.Cmds = append(c.Cmds, stCmd{Op: "remove", Ref: ref})
+					}
+					c.Cmds = append(c.Cmds, stCmd{Op: "readd", Ref: ref, N: r.Intn(3)})
+					nAdds++
+				}
 				if r.Chance(0.15) {
 					c.Cmds = append(c.Cmds, stCmd{Op: "bg", W: "f"})
 				}
@@ -168,7 +189,7 @@ func nonTrivialRestart(lines, replies []string) bool {
 func init() {
 	register(&core.Typed[stCase]{
 		StreamName: "restart", Prop: "C09",
-		RuleText: "1..4 sessions of (open with freshly constructed templates; (add* [Flush])*; Close) plus a final reopen, memtable limits from below one document to the 100 MB default, templates flat/hnsw/trained ivf/none x text x metadata, occasional background flush steps and (a quarter of the cases) compactions run to completion; vector, text and metadata probes after opens and before closes (metadata also through filter GROUPS alone and groups + filters; after the final reopen every modality also with k = exactly the size of the previous answer and with one more, and option probes — threshold, aggregation, nprobes / efSearch, fusion — compared with a reference in-memory hybrid index fed every acknowledged add of all sessions); directory listing after every Close; a case is non-trivial when a probe in a session >= 2 had to find documents acknowledged in an earlier session (must>0) and the implementation returned a non-empty answer or the known defect was reproduced; distinct = distinct request streams",
+		RuleText: "1..4 sessions of (open with freshly constructed templates; (add* [Flush])*; Close) plus a final reopen, memtable limits from below one document to the 100 MB default, base directory names with glob metacharacters, spaces, unicode, a trailing slash, a dot-dot component, relative, a symlinked parent, very long, occasionally the same id removed and added again (also across sessions), templates flat/hnsw (small unclustered cases only, where it is exact)/trained ivf/none x text x metadata, occasional background flush steps and (a quarter of the cases) compactions run to completion; vector, text and metadata probes after opens and before closes (metadata also through filter GROUPS alone and groups + filters; after the final reopen every modality also with k = exactly the size of the previous answer and with one more, and option probes — threshold, aggregation, nprobes / efSearch, fusion — compared with a reference in-memory hybrid index fed every acknowledged add of all sessions); directory listing after every Close; a case is non-trivial when a probe in a session >= 2 had to find documents acknowledged in an earlier session (must>0) and the implementation returned a non-empty answer or the known defect was reproduced; distinct = distinct request streams",
 		NCases: func(tier string) int {
 			if tier == "thorough" {
 				return 1500
